@@ -48,8 +48,8 @@ def run_forests(chk, testbin, label, consts, timeout):
     cases_path = os.path.join(rd, "cases_%s.ndjson" % label)
     # negative control (case 0): one deliberately wrong expectation; the replay must flag it
     neg = {"nodes": [{"inh": [2], "p": 0}, {"inh": [], "p": 3}],
-           "expect": [{"err": False, "s": "v1", "l": ["v2.2", "v2.1"], "b": False},
-                      {"err": False, "s": "v2", "l": ["v2.1", "v2.2"], "b": True}]}
+           "expect": [{"err": False, "s": "v1", "l": ["v2.2", "v2.1", "v2.3"], "b": False},
+                      {"err": False, "s": "v2", "l": ["v2.1", "v2.2", "v2.3"], "b": True}]}
     neg_index = 0
     n = 0
     nontrivial = 0
